@@ -51,9 +51,18 @@ func (w *world) client(m *cluster.Member) olric.DMap {
 	if d, ok := w.dms[m.Index]; ok {
 		return d
 	}
-	d, err := m.DB.NewEmbeddedClient().NewDMap(w.dm)
+	var d olric.DMap
+	var err error
+	for try := 0; try < 100; try++ {
+		// a member that has just joined may not have counted its peers yet
+		d, err = m.DB.NewEmbeddedClient().NewDMap(w.dm)
+		if err == nil {
+			break
+		}
+		time.Sleep(20 * time.Millisecond)
+	}
 	if err != nil {
-		panic(err)
+		panic(fmt.Sprintf("harness: cannot open the DMap on member %d: %v", m.Index, err))
 	}
 	w.dms[m.Index] = d
 	return d
